@@ -229,20 +229,20 @@ type ProbeSpec struct {
 
 // Probe is the running state of a probe controller.
 type Probe struct {
-	Spec        ProbeSpec
-	w           *RuntimeWorld
-	out         *Outcome
-	Reconciles  int
-	RunStarts   int
-	LastObs     map[string]ObsList // plain: input key -> observation
-	curInputs   []InputSpec
-	Registered  bool
-	RegErr      error
-	RegLog      int                           // log length when registration returned
-	PrimaryObs  map[string]ObsList            // q: "ns/type/id" of primary -> {Items: id->snap (empty = absent)}
-	MappedSeen  map[string]map[string]ObsList // q: primary key -> mapped key -> observation
-	ReadErrs    []string
-	MapCalls    int
+	Spec       ProbeSpec
+	w          *RuntimeWorld
+	out        *Outcome
+	Reconciles int
+	RunStarts  int
+	LastObs    map[string]ObsList // plain: input key -> observation
+	curInputs  []InputSpec
+	Registered bool
+	RegErr     error
+	RegLog     int                           // log length when registration returned
+	PrimaryObs map[string]ObsList            // q: "ns/type/id" of primary -> {Items: id->snap (empty = absent)}
+	MappedSeen map[string]map[string]ObsList // q: primary key -> mapped key -> observation
+	ReadErrs   []string
+	MapCalls   int
 	// pending input update, applied by the controller itself at its next reconcile (C17)
 	pendingInputs []InputSpec
 	pendingSet    bool
@@ -251,9 +251,9 @@ type Probe struct {
 	runHook       func(ctx context.Context) error // queue flavour: run hook body
 	runHookRT     func(ctx context.Context, r controller.QRuntime) error
 	captureRT     bool
-	rt          controller.Runtime // the runtime handle of the running plain controller (C17 drives UpdateInputs through it)
-	onReconcile func(p *Probe, r controller.Runtime) error
-	fault       func(p *Probe, where string) error
+	rt            controller.Runtime // the runtime handle of the running plain controller (C17 drives UpdateInputs through it)
+	onReconcile   func(p *Probe, r controller.Runtime) error
+	fault         func(p *Probe, where string) error
 }
 
 // Name implements controller.Controller / QController.
